@@ -1512,6 +1512,21 @@ impl Database {
 
                     let mut old_toast_values: Vec<(usize, OwnedValue)> = Vec::new();
 
+                    // every SET expression reads the row as it was before this UPDATE
+                    deferred_values_buf.clear();
+                    if !deferred_assignments.is_empty() {
+                        let col_map = column_map.as_ref().unwrap();
+                        let values_iter = row_values.iter().map(|ov| ov.to_value());
+                        let values_slice = arena.alloc_slice_fill_iter(values_iter);
+                        let exec_row = ExecutorRow::new(values_slice);
+
+                        for (col_idx, assign_idx) in &deferred_assignments {
+                            let (_, value_expr) = &assignment_indices[*assign_idx];
+                            let new_val = self.eval_expr_with_row(value_expr, &exec_row, col_map)?;
+                            deferred_values_buf.push((*col_idx, new_val));
+                        }
+                    }
+
                     for (col_idx, val) in &precomputed_assignments {
                         let old = std::mem::replace(&mut row_values[*col_idx], val.clone());
                         if let OwnedValue::ToastPointer(_) = old {
@@ -1519,27 +1534,10 @@ impl Database {
                         }
                     }
 
-                    if !deferred_assignments.is_empty() {
-                        let col_map = column_map.as_ref().unwrap();
-                        deferred_values_buf.clear();
-                        {
-                            let values_iter = row_values.iter().map(|ov| ov.to_value());
-                            let values_slice = arena.alloc_slice_fill_iter(values_iter);
-                            let exec_row = ExecutorRow::new(values_slice);
-
-                            for (col_idx, assign_idx) in &deferred_assignments {
-                                let (_, value_expr) = &assignment_indices[*assign_idx];
-                                let new_val =
-                                    self.eval_expr_with_row(value_expr, &exec_row, col_map)?;
-                                deferred_values_buf.push((*col_idx, new_val));
-                            }
-                        }
-
-                        for (col_idx, new_val) in deferred_values_buf.drain(..) {
-                            let old = std::mem::replace(&mut row_values[col_idx], new_val);
-                            if let OwnedValue::ToastPointer(_) = old {
-                                old_toast_values.push((col_idx, old));
-                            }
+                    for (col_idx, new_val) in deferred_values_buf.drain(..) {
+                        let old = std::mem::replace(&mut row_values[col_idx], new_val);
+                        if let OwnedValue::ToastPointer(_) = old {
+                            old_toast_values.push((col_idx, old));
                         }
                     }
 
